@@ -298,7 +298,7 @@ pub fn run(rep: &mut Report) {
         (literal, scalar form, format)".to_owned();
     rep.assume("leading / trailing whitespace and integer refresh_rate values are don't-care (the statement is silent)");
     rep.assume("the parsed value is read from the Debug rendering of the config structs");
-    let n = if rep.tier == "thorough" { 200_000 } else { 8_000 };
+    let n = if rep.tier == "thorough" { 500_000 } else { 80_000 };
     run_cases(rep, "size", n, size_case);
     run_cases(rep, "interval", n, interval_case);
     run_cases(rep, "behaviour", if rep.tier == "thorough" { 400 } else { 40 }, behavioural);
